@@ -590,6 +590,14 @@ FINDINGS = _build() + [
               "and the emitter indents that continuation again on every round (collapsing the line break in _set_param_values is pinned by test_to_function_with_docstring_types)",
          site="cdd/shared/docstring_parsers.py:_set_param_values / cdd/shared/docstring_utils.py:emit_param_str (indent_all_but_first)",
          example="{'alpha': {'typ': \"Literal['member_one', ..., 'member_eight']\", 'doc': 'the value'}} through function (type_annotations=False) twice"),
+    dict(id="C08-trigger-word-recasts-number-like-string-default", property="C08",
+         pattern=dict(check="fixpoint", fmt="docstring", style={"in": ["google", "numpydoc"]}, field="default", default_kind="str", expected="str", observed="int", typ_class="int", round=2),
+         what="[R-trigger-type-recasts-default] 'integer' in the description makes the emitter write the type int; round 2 casts the string default '5' to the int 5",
+         site="cdd/docstring/utils/parse_utils.py:parse_adhoc_doc_for_typ + cdd/shared/defaults_utils.py:_parse_out_default_and_doc", example="{'alpha': {'typ': 'str', 'doc': 'an integer count', 'default': '5'}} through docstring-google twice"),
+    dict(id="C08-listof-trigger-evaluates-value-like-string-default", property="C08",
+         pattern=dict(check="fixpoint", fmt={"in": ["class", "pydantic"]}, style="rest", field="default", default_kind="str", expected="str", observed={"in": ["int", "float", "bool"]}, typ_class="list", round=2),
+         what="[R-class-listof-trigger] 'list of' in the description turns the type into list on round 1; a string default whose text reads as a number or a bool ('5', '0.5', 'True') is then rendered as code and comes back as that value on round 2",
+         site="cdd/docstring/utils/parse_utils.py:parse_adhoc_doc_for_typ / cdd/shared/ast_utils.py:_generic_param2ast", example="{'alpha': {'typ': 'str', 'doc': 'list of names', 'default': '0.5'}} through class twice"),
     dict(id="C08-listof-trigger-respaces-hyphenated-default", property="C08",
          pattern=dict(check="fixpoint", fmt={"in": ["class", "pydantic"]}, field="default", expected="str", observed="str", typ_class="list", round=2),
          what="[R-class-listof-trigger] 'list of' in the description turns the type into list; the string default is then re-rendered as code on round 2 ('x-y' -> 'x - y', 'a b' -> code)",
